@@ -387,6 +387,53 @@ def explore_default_set(tier, seed=0):
     return val["runs"], hit, val["wall"]
 
 
+# ---- the manifest is the ONLY file both codemods meet on: K1 adds a dependency (written into setup.py by the dependency manager,
+# not by K1's own pipeline), K2 has its only sites in setup.py, above and below the requirement list
+DEP_ADDING = ["pixee:python/url-sandbox", "pixee:python/sandbox-process-creation", "pixee:python/use-defusedxml",
+              "pixee:python/flask-enable-csrf-protection", "pixee:python/harden-pickle-load"]
+IN_SETUP_PY = ["pixee:python/secure-random", "pixee:python/use-generator", "pixee:python/harden-pickle-load"]
+
+
+def manifest_pairs(tier):
+    return [(a, b) for a in DEP_ADDING for b in IN_SETUP_PY if a != b] + ([(b, a) for a in DEP_ADDING for b in IN_SETUP_PY if a != b] if tier == "thorough" else [])
+
+
+def manifest_pair_job(arg):
+    k1, k2 = arg
+    files = {"app/one.py": canonical_seed(k1).input.encode(), "setup.py": SETUP_PY, "README.txt": b"demo\n"}
+    return dict(_seq_job_on(files, [k1, k2], drive.run_inproc), pair=(k1, k2))
+
+
+def manifest_pair_job_cli(arg):
+    k1, k2 = arg
+    files = {"app/one.py": canonical_seed(k1).input.encode(), "setup.py": SETUP_PY, "README.txt": b"demo\n"}
+    return dict(_seq_job_on(files, [k1, k2], drive.run_cli), pair=(k1, k2))
+
+
+def _seq_job_on(files, ks, runner):
+    b = runner(drive.Job(files=files, argv=["{dir}", "--codemod-include", ",".join(ks)]))
+    if b.error:
+        raise core.HarnessError(b.error)
+    chain, tree = [], files
+    for k in ks:
+        o = runner(drive.Job(files=tree, argv=["{dir}", "--codemod-include", k]))
+        if o.error:
+            raise core.HarnessError(o.error)
+        chain.append(lite(o, 0))
+        tree = o.final
+    return {"files": files, "batch": lite(b, 0), "chain": chain}
+
+
+def explore_manifest_pairs(tier, seed=0):
+    def compute():
+        t0 = time.time()
+        res = drive.pmap("cmverif.seqspace:manifest_pair_job", drive.seed_rotate(manifest_pairs(tier), seed))
+        return {"pairs": {r["pair"]: r for r in res}, "wall": time.time() - t0}
+
+    val, hit = cache.cached(f"seqspace-manifest-{tier}", compute)
+    return val["pairs"], hit, val["wall"]
+
+
 def codemods(tier):
     return QUICK if tier == "quick" else QUICK + THOROUGH_EXTRA
 
